@@ -92,11 +92,21 @@ Print Assumptions C11_job_predicates_are_the_code's.
    result reachable by any run of the middleware (instances whose machine post-buffers are unordered or of capacity one;
    SMP/OffersValid.v: the offers of a result are those of get_possible_transitions of its state, and that state satisfies
    the C01 invariant). What can still go wrong after a valid offer is accepted is the subject of the refutations above. *)
+Theorem C11_every_offer_is_valid_in_every_run_every_instance :
+  forall (sigma : oracle) (i : inst) (fuel : nat) (x0 : state) (joker0 : Z) (ta : bool) (r : result) (m : mw),
+    inst_nonneg_b i = true ->
+    clock_b x0 = true -> wfs_b i x0 = true -> fresh2_b i x0 = true -> nodep_b x0 = true ->
+    reach sigma i fuel x0 joker0 ta r m ->
+    forall tr, In tr (r_offers r) -> is_transition_valid (r_x r) tr = Ok true.
+Proof. intros sigma i fuel x0 joker0 ta r m Hnn. apply run_offers_valid; auto. Qed.
+Print Assumptions C11_every_offer_is_valid_in_every_run_every_instance.
+
+(* the same for the instance class of the earlier rounds (corollary) *)
 Theorem C11_every_offer_is_valid_in_every_run_flex :
   forall (sigma : oracle) (i : inst) (fuel : nat) (x0 : state) (joker0 : Z) (ta : bool) (r : result) (m : mw),
     inst_nonneg_b i = true -> flex_post_b i = true ->
     clock_b x0 = true -> wfs_b i x0 = true -> fresh2_b i x0 = true -> nodep_b x0 = true ->
     reach sigma i fuel x0 joker0 ta r m ->
     forall tr, In tr (r_offers r) -> is_transition_valid (r_x r) tr = Ok true.
-Proof. intros sigma i fuel x0 joker0 ta r m Hnn Hf. apply flex_offers_valid; auto. Qed.
+Proof. intros. eapply C11_every_offer_is_valid_in_every_run_every_instance; eauto. Qed.
 Print Assumptions C11_every_offer_is_valid_in_every_run_flex.
